@@ -238,6 +238,17 @@ func (c caseT) decl() (string, []string) {
 }
 
 func (c caseT) progSource() string {
+	if c.Kind == "cplx" {
+		return c.cplxSource()
+	}
+	switch c.Form {
+	case "assign":
+		return "package main\n\nimport \"fmt\"\n\nvar c0 " + c.Type + "\n\nfunc main() {\n\tc0 = " + c.Expr.src() +
+			"\n\tfmt.Printf(\"%#v|%T\\n\", c0, c0)\n}\n"
+	case "complit":
+		return "package main\n\nimport \"fmt\"\n\nvar c0 = []" + c.Type + "{" + c.Expr.src() + "}[0]\n\nfunc main() {\n" +
+			"\tfmt.Printf(\"%#v|%T\\n\", c0, c0)\n}\n"
+	}
 	d, names := c.decl()
 	var b strings.Builder
 	b.WriteString("package main\n\nimport \"fmt\"\n\n" + d + "\n\nfunc main() {\n")
